@@ -202,13 +202,14 @@ def rep(name, subject, variant, extra=(), libs=('libvpsc',), **kw):
 RS = ['-DSRC=0,15,30,50', '-DDST=70,85,30,50', '-DR0=20,20,60,60']
 JOBS['C20'] = {
     'quick': [
-        rep('vpsc-repeat-n3m3', 1, 0, bounds='IncSolver::solve n=3 m=3 all structures, run twice, second run under reversed heap address order; ' + B_VPSC),
+        rep('vpsc-repeat-n3m2', 1, 0, ['-DNC=2'], bounds='IncSolver::solve n=3 m=2 all structures, run twice, second run under reversed heap address order; ' + B_VPSC),
         rep('vpsc-translate-n3m2', 1, 1, ['-DNC=2'], bounds='IncSolver::solve n=3 m=2, problem translated by any multiple of 2^-10 in [-8,8]; ' + B_VPSC),
         rep('route-repeat', 3, 0, RS, libs=['libavoid'], bounds='orthogonal routing scene (rectangle 20,20,60,60; endpoints in boxes left/right of it) routed twice, second under reversed heap address order'),
         rep('route-translate', 3, 1, RS, libs=['libavoid'], bounds='same scene translated by (tx,ty), any multiples of 2^-10 in [-8,8]'),
         rep('route-mirror', 3, 2, RS, libs=['libavoid'], bounds='same scene mirrored x -> -x (the mirrored scene lies at negative x): equal route cost'),
     ],
     'thorough': [
+        rep('vpsc-repeat-n3m3', 1, 0, bounds='IncSolver::solve n=3 m=3 all structures, run twice, second run under reversed heap address order; ' + B_VPSC, time_limit=2400),
     ],
 }
 ASSUMPTIONS['C20'] = ['"irrespective of what was allocated in between" is modelled by unrelated allocations plus a reversal of the heap address order for the second run (executor option): this flips every comparison of addresses of distinct heap objects; other address permutations are outside the bound',
@@ -251,12 +252,12 @@ def life(name, subject, extra=(), libs=('libavoid',), **kw):
     return Job(name, 'C15_lifecycle.cpp', ['-DSUBJECT=%d' % subject] + list(extra), list(libs), **kw)
 JOBS['C15'] = {
     'quick': [
-        life('router-history-3', 1, ['-DNSTEPS=3'], bounds='orthogonal Router with shape A (2 pins, one in use), connector pin->free point (symbolic); every 3-step history (then optionally a final transaction) over {processTransaction, add shape, move A, delete A, delete connector, add connector, move endpoint}; router destroyed with whatever is queued'),
+        life('router-history-2', 1, ['-DNSTEPS=2'], bounds='orthogonal Router with shape A (2 pins, one in use), connector pin->free point (symbolic); optionally an initial transaction, then every 2-step history (then optionally a final transaction) over {processTransaction, add shape, move A, delete A, delete connector, add connector, move endpoint}; router destroyed with whatever is queued'),
         life('incsolver-history-3', 2, ['-DNSTEPS=3'], libs=['libvpsc'], bounds='IncSolver on 3 variables: every 3-step history over {satisfy, solve, addConstraint(symbolic), change desired positions}; then destroy'),
         life('fdlayout-lifecycle', 3, libs=COLA_LIBS, exclude=('libcola/output_svg.cpp',), bounds='ConstrainedFDLayout on 3 symbolic rectangles: every subset of {setConstraints, setAvoidNodeOverlaps, setUnsatisfiableConstraintInfo, makeFeasible, makeFeasible again}; destroy without run'),
     ],
     'thorough': [
-        life('router-history-4', 1, ['-DNSTEPS=4'], bounds='every 4-step history (as above)', time_limit=2400),
+        life('router-history-3', 1, ['-DNSTEPS=3'], bounds='every 3-step history (as above)', time_limit=3000),
         life('router-history-3-immediate', 1, ['-DNSTEPS=3', '-DTRANS=0'], bounds='every 3-step history with transactions switched off'),
     ],
 }
@@ -279,7 +280,8 @@ def hyp(name, extra=(), **kw):
     return Job(name, 'C12_hyperedge.cpp', list(extra), ['libavoid'], **kw)
 B_HYP = 'orthogonal Router, three 20x20 shapes (0,40),(120,0),(120,80) each with an exclusive pin facing the middle, one free junction at any integer point of [40,100]x[20,80], three connectors junction->pin; '
 JOBS['C12'] = {
-    'quick': [hyp('improve-moving-line', ['-DIMPROVE=1', '-DJYFIX=45'], bounds=B_HYP.replace('any integer point of [40,100]x[20,80]', 'any integer point (x,45), x in [40,100]') + 'improveHyperedgeRoutesMovingJunctions')],
+    'quick': [hyp('improve-moving-line', ['-DIMPROVE=1', '-DJYFIX=45'], bounds=B_HYP.replace('any integer point of [40,100]x[20,80]', 'any integer point (x,45), x in [40,100]') + 'improveHyperedgeRoutesMovingJunctions'),
+              hyp('improve-staircase-buf4', ['-DIMPROVE=1', '-DSCENE=2', '-DJYFIX=20'], bounds='shapeBufferDistance 4; 10x10 shapes centred (100,-20) [left pin], (60,60) [top pin], (40,100) [right pin]; junction at (x,20), x in [34,46]; three connectors junction->pin; improveHyperedgeRoutesMovingJunctions')],
     'thorough': [hyp('improve-moving', ['-DIMPROVE=1'], bounds=B_HYP + 'improveHyperedgeRoutesMovingJunctions', time_limit=3000),
                  hyp('improve-addremove', ['-DIMPROVE=1', '-DADDREMOVE', '-DJYFIX=45'], bounds=B_HYP + 'improveHyperedgeRoutesMovingAddingAndDeletingJunctions'),
                  hyp('improve-moving-then-move', ['-DIMPROVE=1', '-DMOVE', '-DJYFIX=45'], bounds=B_HYP + 'then one shape is moved by (dx,dy) in [-10,10]^2 and a second transaction runs'),
